@@ -15,7 +15,7 @@ PROP = 'C01'
 BASE_DEPTH = [3]
 
 
-def gather_states(tier, run, budget=None):
+def gather_states(tier, run, budget=None, extra_models=True):
     """All states of all family profiles, deduplicated globally.
     Returns [(model, trace, profile_name, flags, depth)] - flags: union of the machine flags of the profiles that
     reach the state, depth: smallest BFS depth at which it is reached."""
@@ -49,7 +49,13 @@ def gather_states(tier, run, budget=None):
     run.bounds['family_combination_size'] = k
     run.bounds['per_profile_state_budget'] = budget
     run.bounds['profile_depths'] = {k_: v['depth'] for k_, v in prof_info.items()}
-    return [(s, tr, pn, tuple(sorted(fl)), d) for s, tr, pn, fl, d in out]
+    res = [(s, tr, pn, tuple(sorted(fl)), d) for s, tr, pn, fl, d in out]
+    if extra_models:
+        for m, tr in profiles.cross_namespace_models():
+            if m not in seen:
+                res.append((m, tr, 'cross-namespace-product', ('aliases', 'imports', 'ns', 'routes', 'unions', 'wrappers'), 3))
+        run.bounds['cross_namespace_alias_product_models'] = len(profiles.cross_namespace_models())
+    return res
 
 
 def judge_valid(specs, out):
